@@ -216,9 +216,17 @@ func (e *Env) apply(a Action) {
 		}
 		w.contact(container, "push")
 		w.mu.Unlock()
-		if len(us) == 1 && a.IDs[0]%2 == 0 {
+		switch {
+		case len(us) == 1 && container[0].Kind == KMsg && container[0].User != 0 && a.IDs[0]%3 == 0:
+			// the short forms of a new message (converted back by convertShortMessage / …ChatMessage)
+			en := container[0]
+			e.Push(&tg.UpdateShortMessage{ID: en.ID, UserID: userID(en.User), Pts: en.Pos, PtsCount: en.Count})
+		case len(us) == 1 && container[0].Kind == KMsg && container[0].User != 0 && a.IDs[0]%3 == 1:
+			en := container[0]
+			e.Push(&tg.UpdateShortChatMessage{ID: en.ID, FromID: userID(en.User), ChatID: 7, Pts: en.Pos, PtsCount: en.Count})
+		case len(us) == 1 && a.IDs[0]%2 == 0:
 			e.Push(&tg.UpdateShort{Update: us[0], Date: 0})
-		} else if len(us) > 0 {
+		case len(us) > 0:
 			e.Push(&tg.Updates{Updates: us})
 		}
 	case "ps": // a numbered container: it goes through the seq box
@@ -297,6 +305,8 @@ func (e *Env) apply(a Action) {
 		w.mu.Unlock()
 	case "T":
 		e.Push(&tg.UpdatesTooLong{})
+	case "PC": // updatePtsChanged: the common state must be fetched again
+		e.Push(&tg.Updates{Updates: []tg.UpdateClass{&tg.UpdatePtsChanged{}}})
 	case "CT":
 		before := e.servedCount("c" + strconv.FormatInt(a.C, 10))
 		w.mu.Lock()
